@@ -5,7 +5,7 @@ from __future__ import annotations
 from harness.common import CoqBatch, Names, c_list, c_pair, c_pos, c_nat, c_opt, c_bool
 from harness import pdl
 
-IMPORTS = ["Base", "Engine", "Exec", "SpecDenote", "SpecWhile", "GraphDef", "CheckLib", "EngineCheck"]
+IMPORTS = ["Base", "Rename", "Engine", "Exec", "SpecDenote", "SpecWhile", "GraphDef", "InputSpec", "Nested", "CheckLib", "EngineCheck"]
 
 
 def real_input_spec(g):
@@ -16,21 +16,27 @@ def real_input_spec(g):
 
 
 def define_case(batch: CoqBatch, i: int, N: Names, g, run):
-    cg = pdl.coq_graph(N, g)
-    batch.add_def(i, "g", cg["graph"], "graph")
-    batch.add_def(i, "ft", cg["ftab"], "dict fexp")
-    batch.add_def(i, "gt", cg["gtab"], "dict gate_cfg")
+    """Definitions for one case: $ng (nested graph, innermost sub-graphs first), $g (its flat graph), $ft, $gt,
+    $pv, $sel, $fuel, $res (packaged model result), $calls (complete call log, nested calls included)."""
+    pdl.coq_ngraph(N, g, lambda name, term, ty: batch.add_def(i, name, term, ty), prefix="ng")
+    batch.add_def(i, "g", "ng_graph $ng", "graph")
+    batch.add_def(i, "ft", "match $ng with NG _ _ _ ft _ _ => ft end", "dict fexp")
+    batch.add_def(i, "gt", "match $ng with NG _ _ _ _ gt _ => gt end", "dict gate_cfg")
     batch.add_def(i, "pv", pdl.c_dictval(N, run["inputs"]), "dict val")
     sel = run.get("select")
-    if sel is None and g.get("selected") is not None:
-        sel = g["selected"]
-    if sel == "**":
-        sel = None
-    batch.add_def(i, "sel", c_opt(sel, lambda s: c_list([c_pos(N(x)) for x in s])), "option (list name)")
+    override = "None"
+    if sel is not None:
+        override = "(Some None)" if sel == "**" else f"(Some (Some {c_list([c_pos(N(x)) for x in sel])}))"
+    eff = sel if sel is not None else g.get("selected")
+    if eff == "**":
+        eff = None
+    batch.add_def(i, "sel", c_opt(eff, lambda s: c_list([c_pos(N(x)) for x in s])), "option (list name)")
     fuel = run.get("max_iterations") or 1000
     batch.add_def(i, "fuel", c_nat(fuel))
     runner = "Sync" if run.get("runner", "sync") == "sync" else "Async"
-    batch.add_def(i, "res", f"run_basic $ft $gt {runner} $fuel $g $pv $sel")
+    d = pdl.graph_depth(g) + 1
+    batch.add_def(i, "res", f"run_ng {d} {runner} $fuel $ng $pv {override}", "result")
+    batch.add_def(i, "calls", f"calls_ng {d} {runner} $fuel $ng $pv", "list call")
 
 
 def emit_model_checks(batch: CoqBatch, i: int, N: Names, g, run, obs, log_mode="exact"):
@@ -40,9 +46,9 @@ def emit_model_checks(batch: CoqBatch, i: int, N: Names, g, run, obs, log_mode="
     batch.add(i, 102, "dictV_eqb", "res_values $res", pdl.c_dictval(N, obs["values"]))
     batch.add(i, 103, "opt_eqb Pos.eqb", "res_err $res", c_opt(obs["error"], c_pos))
     if log_mode == "exact":
-        batch.add(i, 104, "list_eqb call_eqb", "concat (res_log $res)", pdl.c_log(N, obs["log"]))
+        batch.add(i, 104, "list_eqb call_eqb", "$calls", pdl.c_log(N, obs["log"]))
     else:
-        batch.add(i, 104, "calls_multiset_eqb", "concat (res_log $res)", pdl.c_log(N, obs["log"]))
+        batch.add(i, 104, "calls_multiset_eqb", "$calls", pdl.c_log(N, obs["log"]))
 
 
 def run_cases(ctx, name, cases, extra=None, shard=160, schedules=None, want_model=None):
